@@ -418,8 +418,8 @@ def run_link_tie(res, rng, quick):
     from props import c02
     header = c02.HEADER.replace('C02.Exec.', 'C02.Text C02.LinkC04 C02.Exec.')
     cases, meta = [], []
-    for _ in range(150 if quick else 1500):
-        tag = rng.choice(LINK_TAGS)
+    for k in range(160 if quick else 1600):
+        tag = LINK_TAGS[k % len(LINK_TAGS)]      # every form, evenly
         mn, prm = c02.gen_card(rng, tag)
         if rng.random() < 0.08:
             prm = prm[:-1] if rng.random() < 0.5 else prm + [1.0]
